@@ -102,3 +102,39 @@ Proof.
   intros v tbl K req Hv Hs Hp. destruct (build_wf_thm v tbl K req Hv Hs Hp) as (L & P & _ & HP & Hwf & _).
   exists P. split; [exact HP|]. exact (src_prefix v L P K Hwf).
 Qed.
+
+(* ---- trie::next_predictive (the predictive / enumerating iterator) ---- *)
+From X Require Import AccessPredictiveFacts AccessSizeFacts.
+Theorem pred_calls_refines : forall P q n r, trie_shape P -> alpha_bytes P -> alen (tv_chars (t_tail P)) < 2^62 ->
+  bytes_ok q = true -> lenN q < 2^61 -> bc_num_units (t_bc P) < 2^61 ->
+  N.of_nat n * (bc_num_units (t_bc P) + 2) < 2^61 ->
+  pred_calls P (mk_predictive q) n = Ok r -> pred_calls_g P (mk_predictive q) n = Ok r.
+Proof. exact (pred_calls_ref_bounded bv_get_ref bv_rank_ref bc8_api bc16_api bc7_api bc15_api tail_decode_ref ct_ref). Qed.
+
+(* n advances of a fresh regenerated iterator; the bound on n only excludes runs that would take 2^61 search steps *)
+Theorem src_predictive : forall v L P K, wf_for v L P K -> forall q n, bytes_ok q = true -> lenN q < 2^61 ->
+  N.of_nat n * (bc_num_units (t_bc P) + 2) < 2^61 ->
+  pred_calls_g P (mk_predictive q) n = Ok (abs_calls (with_ids P (spec_completions K q)) n).
+Proof.
+  intros v L P K Hwf q n Hq Hl Hn. destruct (predictive_thm v L P K Hwf q Hq) as (A & _).
+  pose proof (assembled_tail_small v L P K Hwf) as Ht. pose proof (assembled_units_small v L P K Hwf) as Hu.
+  assert (2 ^ 60 < 2 ^ 62) by (apply N.pow_lt_mono_r; lia).
+  assert (2 ^ 56 < 2 ^ 61) by (apply N.pow_lt_mono_r; lia).
+  apply pred_calls_refines.
+  all: first [ exact (assembled_shape v L P K Hwf) | exact (assemble_alpha_bytes v L P K Hwf) | apply A | assumption | lia ].
+Qed.
+
+(* enumeration = the predictive iterator on the empty query *)
+Theorem src_enumerate : forall v L P K, wf_for v L P K -> forall n,
+  N.of_nat n * (bc_num_units (t_bc P) + 2) < 2^61 ->
+  pred_calls_g P (mk_predictive []) n = Ok (abs_calls (with_ids P K) n).
+Proof.
+  intros v L P K Hwf n Hn.
+  assert (E : pred_calls P (mk_predictive []) n = Ok (abs_calls (with_ids P K) n)) by (apply (enumerate_calls_thm v L P K Hwf)).
+  pose proof (assembled_tail_small v L P K Hwf) as Ht. pose proof (assembled_units_small v L P K Hwf) as Hu.
+  assert (2 ^ 60 < 2 ^ 62) by (apply N.pow_lt_mono_r; lia).
+  assert (2 ^ 56 < 2 ^ 61) by (apply N.pow_lt_mono_r; lia).
+  apply pred_calls_refines.
+  all: first [ exact (assembled_shape v L P K Hwf) | exact (assemble_alpha_bytes v L P K Hwf) | exact E | reflexivity
+             | assumption | lia | (unfold lenN; cbn; lia) ].
+Qed.
